@@ -214,7 +214,7 @@ def main():
         obligations, discharged, thm_details, thm_broken = check_theorems(prop, log)
 
     rng = random.Random(seed)
-    budget_scale = 1
+    budget_scale = int(os.environ.get('HB_SCALE', '2'))      # quick: twice the base counts of the family modules
     if thm_broken:
         budget_scale = 10      # the search of DESIGN.md §5
     cases = fam.gen_cases(rng, tier, budget_scale)
